@@ -366,6 +366,9 @@ def enum_work(item):
 
 
 def replay(case):
+    if case.get("routes"):
+        a = ruleinfo.route_work(case["rule"])
+        return [p for ps in a.problems.values() for p in ps if core.jsonable(p["case"]) == case]
     if case.get("variant") == "foreign_child":
         a = foreign_child_work(("quick", case["rule"]))
         return [p for ps in a.problems.values() for p in ps if core.jsonable(p["case"]) == case]
@@ -399,6 +402,7 @@ def explore(tier):
     accs = core.pmap(work, items)
     accs += core.pmap(enum_work, [(tier, rn) for rn in sorted(tab) if tab[rn][2].get("content_enum")])
     accs += core.pmap(foreign_child_work, [(tier, rn) for rn in sorted(tab)])
+    accs += core.pmap(ruleinfo.route_work, sorted(tab))
     accs += core.pmap(interleave_work, [(tier, rn, first) for rn in sorted(tab) if rn in e2.MIXED_RULES and ruleinfo.automata(rn).names
                                         for first in ("with_child", "plain")])
     acc = core.merge_all(accs)
